@@ -3,7 +3,8 @@ at run time (cx/cx_interp.hpp)."""
 import hashlib
 import random
 
-NKINDS = 35
+NKINDS = 39
+ALIAS = {33, 34, 35, 36, 37, 38}
 TWO_CONTAINER = {17, 18, 19, 20, 21, 23, 24, 25, 26, 27, 28}  # assign/swap/append/ctor between containers
 GROWING = {0, 1, 2, 3, 4, 5, 10, 11, 12, 14, 15, 22}
 
@@ -24,10 +25,12 @@ def gen_history(rng, nops):
     ops = []
     for _ in range(nops):
         r = rng.random()
-        if r < 0.45:
+        if r < 0.40:
             k = rng.choice(sorted(GROWING))
-        elif r < 0.70:
+        elif r < 0.62:
             k = rng.choice(sorted(TWO_CONTAINER))
+        elif r < 0.76:
+            k = rng.choice(sorted(ALIAS))
         else:
             k = rng.randrange(NKINDS)
         ops.append((k, rng.randrange(2), rng.randrange(65536), rng.randrange(65536), rng.randrange(65536)))
